@@ -185,12 +185,13 @@ func c20lClassify(c c20lCase) (nontrivial bool, labels []string) {
 // observation: raw tracers
 
 type c20lTracer struct {
-	env  *c20lEnv
-	mu   sync.Mutex
-	seen map[uint64]bool   // entered this node's validation pipeline (arrived from the network, first copy)
-	dlv  map[uint64]bool   // accepted by this node's pubsub: delivered locally and relayed
-	rej  map[uint64]string // dropped by this node's pubsub, with the reason
-	cond *sync.Cond
+	env     *c20lEnv
+	mu      sync.Mutex
+	seen    map[uint64]bool   // entered this node's validation pipeline (arrived from the network, first copy)
+	dlv     map[uint64]bool   // accepted by this node's pubsub: delivered locally and relayed
+	rej     map[uint64]string // dropped by this node's pubsub, with the reason
+	grafted map[peer.ID]bool  // peers that are (or were) in this node's mesh for the topic
+	cond    *sync.Cond
 }
 
 func newC20lTracer(env *c20lEnv) *c20lTracer {
@@ -222,11 +223,19 @@ func (tr *c20lTracer) DeliverMessage(msg *pubsub.Message) {
 func (tr *c20lTracer) RejectMessage(msg *pubsub.Message, reason string) {
 	tr.note(msg, func(id uint64) { tr.rej[id] = reason })
 }
-func (tr *c20lTracer) AddPeer(peer.ID, protocol.ID)             {}
-func (tr *c20lTracer) RemovePeer(peer.ID)                       {}
-func (tr *c20lTracer) Join(string)                              {}
-func (tr *c20lTracer) Leave(string)                             {}
-func (tr *c20lTracer) Graft(peer.ID, string)                    {}
+func (tr *c20lTracer) AddPeer(peer.ID, protocol.ID) {}
+func (tr *c20lTracer) RemovePeer(peer.ID)           {}
+func (tr *c20lTracer) Join(string)                  {}
+func (tr *c20lTracer) Leave(string)                 {}
+func (tr *c20lTracer) Graft(p peer.ID, _ string) {
+	tr.mu.Lock()
+	if tr.grafted == nil {
+		tr.grafted = map[peer.ID]bool{}
+	}
+	tr.grafted[p] = true
+	tr.cond.Broadcast()
+	tr.mu.Unlock()
+}
 func (tr *c20lTracer) Prune(peer.ID, string)                    {}
 func (tr *c20lTracer) DuplicateMessage(*pubsub.Message)         {}
 func (tr *c20lTracer) ThrottlePeer(peer.ID)                     {}
@@ -297,6 +306,8 @@ type c20lEnv struct {
 	judgedC      map[uint64]bool // ids whose arrival at C has been judged (each id is reported at most once)
 	judgedB      map[uint64]bool
 	published    []uint64 // since the last settle
+	virgin       []uint64 // ids published while B never had a consensus handler
+	virginFail   string
 }
 
 func (e *c20lEnv) identify(data []byte) (uint64, bool) {
@@ -422,6 +433,30 @@ func c20lNewEnv(t *testing.T, st *vk.Stats) *c20lEnv {
 			return e
 		}
 	}
+	// B has joined the topic but never had a consensus handler: nothing that reaches it now may be
+	// relayed. The wait for B's mesh and for B's decision only makes the probe effective; if either
+	// does not happen in time the probe is skipped (label), never judged.
+	if e.trB.waitFor(12*time.Second, func() bool { return e.trB.grafted[e.ids[0]] && e.trB.grafted[e.ids[2]] }) {
+		for k := 0; k < 3 && e.broken == ""; k++ {
+			id := e.newID(c20msg.Accepted)
+			ok := false
+			if k == 1 {
+				ok = e.publishRaw(id, 0, uint8(k))
+			} else {
+				ok = e.publish(id, c20msg.Spec{Kind: uint8(k)})
+			}
+			if !ok {
+				return e
+			}
+			if e.trB.waitFor(5*time.Second, func() bool { return e.trB.resolved(id) }) {
+				e.virgin = append(e.virgin, id)
+			}
+		}
+		st.LabelN("setup:never-had-handler-probes-decided-at-B", int64(len(e.virgin)))
+	} else {
+		st.Label("setup:never-had-handler-probe-skipped(no mesh at B)")
+	}
+	e.published = e.published[:0]
 	if !e.setHandler(1, c20lHSpec{Mode: 1}) {
 		return e
 	}
@@ -442,6 +477,14 @@ func c20lNewEnv(t *testing.T, st *vk.Stats) *c20lEnv {
 		}
 	}
 	e.published = e.published[:0]
+	// an accepted probe has reached C through B: anything B relayed before it has arrived too
+	e.trC.mu.Lock()
+	for _, id := range e.virgin {
+		if e.trC.seen[id] {
+			e.virginFail = fmt.Sprintf("message %d reached C although it was published while B had joined the topic but never had a consensus handler set (B's pubsub: delivered=%v rejected=%q)", id, e.trB.dlv[id], e.trB.rej[id])
+		}
+	}
+	e.trC.mu.Unlock()
 	return e
 }
 
@@ -878,6 +921,10 @@ func TestVerifC20Libp2pLine(t *testing.T) {
 	if e.broken != "" {
 		st.Note("libp2p line could not be built; unit inconclusive: " + e.broken)
 		t.Skip("inconclusive: " + e.broken)
+	}
+	if e.virginFail != "" {
+		st.Fail(t, c20lCase{}, "", "relayed-before-first-handler", "%s", e.virginFail)
+		return
 	}
 	if replay {
 		// the replacement window is a real-time race: a saved case is re-run until it
